@@ -99,7 +99,7 @@ def cases(tier, seed):
     for st, tt, mode in itertools.product((0, 1), (0, 1), ('lazy', 'direct')):
         out.append({'k': 'recycled', 'sys': st, 'thr': tt, 'mode': mode})
     for how in ('two-agents-first-leaves-first', 'two-agents-second-leaves-first', 'restart-inside-pending', 'restart-from-another-thread', 'reentrant-start', 'restart-same-agent',
-                'restart-under-second-agent-first-leaves-first', 'restart-under-second-agent-second-leaves-first', 'shutdown-inside-start'):
+                'restart-under-second-agent-first-leaves-first', 'restart-under-second-agent-second-leaves-first', 'shutdown-inside-start', 'never-started-agent', 'shutdown-start-inside-shutdown'):
         for st, tt in itertools.product((0, 1), (0, 1)):
             out.append({'k': 'lifecycle', 'how': how, 'sys': st, 'thr': tt})
     # three handlers, every sequence of their starts and shutdowns (depth 5 quick / 7 thorough), sharded by the first operation
@@ -404,6 +404,35 @@ def lifecycle_case(ctx, desc):
                         x.shutdown()
                     for _ in range(3):
                         ns['touch']()
+                elif how == 'never-started-agent':
+                    # a second agent object exists, has a tracepoint registered, and is never started
+                    d2 = _second_deep(w)
+                    try:
+                        d2.task_handler.open()
+                        d2.register_tracepoint('c14life.py', 7, {'fire_count': '-1', 'fire_period': '0'})
+                        d2.task_handler._pool.submit(lambda: None).result(5)
+                    except BaseException as e:
+                        obs['raised'] = e
+                    d.start()
+                    d.shutdown()
+                    for _ in range(3):
+                        ns['touch']()
+                    obs['second_sent'] = len(chan.sent())
+                elif how == 'shutdown-start-inside-shutdown':
+                    class Again(rig.RecDecorator):
+                        def shutdown(self_):
+                            if not state['again']:
+                                state['again'] = True
+                                d.shutdown()
+                                d.start()
+                    d.start()
+                    d.config.plugins = list(d.config.plugins) + [Again(rig.Journal())]
+                    d.shutdown()
+                    obs['started_after_start'] = d.started
+                    obs['hooks_after_start'] = (sys.gettrace(), threading.gettrace())
+                    obs['timers'] = [t.name for t in threading.enumerate() if t.name == 'Tracepoint Long Poll' and t.is_alive()]
+                    d.shutdown()
+                    ns['touch']()
                 elif how == 'shutdown-inside-start':
                     d.start()
                     obs['started_after_start'] = d.started
@@ -481,9 +510,9 @@ def lifecycle_case(ctx, desc):
                       f'(sys, threading) hook: {obs["live_keeps_hooks"]}', desc)
     elif obs['after'][0] is not pre[0] or obs['after'][1] is not pre[1]:
         ctx.violation(f'C14/lifecycle/{how}/hooks-not-restored', f'{label}: after the last shutdown sys={name(obs["after"][0])} threading={name(obs["after"][1])}', desc)
-    elif how == 'shutdown-inside-start' and (obs.get('started_after_start') or obs['hooks_after_start'][0] is not pre[0] or obs['hooks_after_start'][1] is not pre[1]):
-        ctx.violation('C14/lifecycle/shutdown-inside-start/agent-live-after-shutdown', f'{label}: shutdown() was called (and returned) while start() was in progress on the same thread; '
-                      f'after start() returned: started={obs.get("started_after_start")}, hooks sys={name(obs["hooks_after_start"][0])} threading={name(obs["hooks_after_start"][1])}, '
+    elif how in ('shutdown-inside-start', 'shutdown-start-inside-shutdown') and (obs.get('started_after_start') or obs.get('timers') or obs['hooks_after_start'][0] is not pre[0] or obs['hooks_after_start'][1] is not pre[1]):
+        ctx.violation('C14/lifecycle/shutdown-inside-start/agent-live-after-shutdown', f'{label}: shutdown() was called (and returned) while start() / shutdown() was in progress on the same thread; '
+                      f'after the outer call returned: started={obs.get("started_after_start")}, hooks sys={name(obs["hooks_after_start"][0])} threading={name(obs["hooks_after_start"][1])}, '
                       f'poll timers alive {obs.get("timers")}', desc)
     elif how == 'restart-same-agent' and (obs.get('sent_first') != 2 or obs.get('sent_second') != 2):
         ctx.violation('C14/lifecycle/restart-same-agent/tracepoints-not-acting-after-restart', f'{label}: a service tracepoint and a registered one, each hit once per run: '
